@@ -6,3 +6,6 @@ package verifhook
 
 // Point is a no-op unless built with `-tags verif`.
 func Point(name string) {}
+
+// PointN is a no-op unless built with `-tags verif`.
+func PointN(name string, n int) {}
